@@ -994,7 +994,8 @@ def stale_table_session(ctx):
 
 def check_C11(ctx, deep=False):
     k = consts()
-    ctx.rule = ("positions near mate/stalemate from curated stems and playouts of small endings: `mateinfo` (Lean solver over the "
+    ctx.rule = ("positions near mate/stalemate from curated stems and playouts of small endings, and mate-in-one positions obtained by "
+                "retraction from generated mates over 16 material sets: `mateinfo` (Lean solver over the "
                 "model's generator: moves that mate at once, moves that do not allow a mate in one), `searchd 1/2/3` on the real "
                 "search; iteration 1 must select a mating move when one exists, iteration 2 must not walk into a mate in one "
                 "when avoidable; every `score mate N` (|N| <= 3) is judged by the Lean solver (`matecheck`): N>0 on any line => "
@@ -1006,6 +1007,9 @@ def check_C11(ctx, deep=False):
     ops = []
     sops = ["gen_all", "mateinfo", "searchd_1", "searchd_2", "searchd_3"]
     ops += C.genops("mate", ctx.seed, n, *sops)
+    # mate-in-one positions obtained by taking back the mating move from generated mates, round-robin
+    # over material sets incl. every "one minor piece each" pairing (self-block / rim mates)
+    ops += C.genops("retromate", ctx.seed + 1, 64 if q else 960, *sops)
     ops += C.genops("search", ctx.seed, n // 4, 6, *sops)
     if not q:
         ops += C.genops("mate", ctx.seed + 2, 150, "gen_all", "mateinfo", "searchd_5")
@@ -1273,6 +1277,77 @@ def check_C08(ctx, deep=False):
             ctx.fail("responsiveness", status=status, position=plan[0], clock=plan[1], movestogo=plan[2], delay_ms=delay)
         else:
             ctx.sample({"position": plan[0][:100], "clock": plan[1], "mtg": plan[2], "delay_ms": round(delay, 1)})
+    # black box: the engine's OWN answer ends the game (it mates or stalemates), then `go` again
+    # without a new `position`: the null move is due at once, and the engine must stay responsive.
+    # The position reached is computed by the SPEC from the engine's first answer.
+    enders = ["position fen 6k1/5ppp/8/8/8/8/5PPP/R5K1 w - - 0 1",
+              "position fen 6k1/5ppp/8/8/8/8/5PPP/3R2K1 w - - 0 1",
+              "position fen r5k1/5ppp/8/8/8/8/5PPP/6K1 b - - 0 1",
+              "position fen 7k/8/5K2/6Q1/8/8/8/8 w - - 0 1",
+              "position fen k7/8/1K6/8/8/8/8/7R w - - 0 1",
+              "position fen 7k/5Q2/8/6K1/8/8/8/8 w - - 0 1",
+              "position startpos moves f2f3 e7e5 g2g4",
+              "position fen 8/8/8/8/8/5k2/7q/7K b - - 0 1 moves h2g2 h1g2"]
+    if not q:
+        enders += [o[4:] for o in C.genops("mate", ctx.seed, 40) if o.startswith("pos ")][:40]
+
+    def ender(pos):
+        e = S.Engine()
+        try:
+            if not S.handshake(e):
+                return pos, None
+            e.send(pos)
+            out = []
+            for i in range(3):
+                r = S.go_and_wait(e, "go wtime 2100 btime 2100 movestogo 4", 400 / 1000.0 + 6)
+                out.append(r)
+                if not r["answered"] or not r["ready"] or r["best"] == "bestmove 0000":
+                    break
+            served = None
+            if out and out[-1]["answered"] and out[-1]["ready"]:
+                e.send("position startpos moves e2e4")
+                r2 = S.go_and_wait(e, "go wtime 0 btime 0", 6)
+                served = bool(r2["answered"] and re.fullmatch(r"bestmove [a-h][1-8][a-h][1-8][qrbn]?", r2["best"] or ""))
+            return pos, (out, served)
+        finally:
+            e.kill()
+    eres = S.run_parallel(ender, enders, workers=4)
+    eops, eidx = [], []
+    for pos, res in eres:
+        ctx.count("game_ending_sessions")
+        ctx.case(("ender", pos), True)
+        if res is None:
+            ctx.fail("responsiveness", status="no-handshake", position=pos)
+            continue
+        out, served = res
+        seq = ["pos " + pos, "gen all"]
+        for r in out:
+            mv = (r["best"] or "").split(" ")[1] if r["answered"] and " " in (r["best"] or "") else ""
+            if re.fullmatch(r"[a-h][1-8][a-h][1-8][qrbn]?", mv):
+                seq += ["pick " + mv, "gen all"]
+        eidx.append((pos, out, served, len(eops), len(seq)))
+        eops += seq
+    er = C.run_ops(eops) if eops else []
+    for pos, out, served, start, ln in eidx:
+        gens = [r for r in er[start:start + ln] if r["op"] == "gen all"]
+        for i, r in enumerate(out):
+            legal = [m for m, _ in C.succ_list(gens[i]["S"])] if i < len(gens) and gens[i]["S"] != "-" else None
+            delay = (r["t_best"] - r["t_go"]) * 1000 if r["answered"] else None
+            if not r["answered"]:
+                ctx.fail("responsiveness", status="go-%d-unanswered-after-own-game-ending-answer" % (i + 1), position=pos,
+                         earlier=[x["best"] for x in out[:i]])
+                break
+            if not r["ready"]:
+                ctx.fail("responsiveness", status="no-readyok-after-go-%d" % (i + 1), position=pos)
+                break
+            if legal is not None and not legal and r["best"] != "bestmove 0000":
+                ctx.fail("responsiveness", status="terminal-position-answer:" + str(r["best"]), position=pos, go=i + 1)
+            if legal and r["best"] == "bestmove 0000":
+                ctx.fail("responsiveness", status="null-move-in-non-terminal-position", position=pos, go=i + 1)
+            if delay is not None and delay > 400 + 300 and legal is not None and not legal:
+                ctx.fail("responsiveness", status="late-null-move", position=pos, delay_ms=delay)
+        if served is False:
+            ctx.fail("responsiveness", status="not-served-afterwards", position=pos)
     # in-process: a move is sent iff the root has one, whatever the expiry
     tops = []
     for t in TERMINAL:
